@@ -31,7 +31,7 @@ package bcl
 //@ invariant [C07,C20] window_is_a_piece_of_the_source (l *lexer): l.posShift + len(l.input) <= len(g.ev_src_inputs) && (g.ev_closed_inputs ==> l.posShift + len(l.input) == len(g.ev_src_inputs)) && (forall i int :: 0 <= i && i < len(l.input) ==> l.input[i] == g.ev_src_inputs[l.posShift + i])
 //
 // next(): refill and decode one character.
-//@ group C06,C07,C08,C11
+//@ group C06,C07,C08,C11,C20
 //@ func (*lexer).next
 //@   ensures same_updater: l.lpUpd == old(l.lpUpd)
 //@   ensures [C07,C11] end_of_input_only_when_closed: result == eof ==> g.ev_closed_inputs && l.pos == len(l.input) && l.width == 0
@@ -98,8 +98,19 @@ package bcl
 //@   ensures [C11] error_then_fail_then_stop: result == nil && g.lx_fin && !g.lx_err && g.ev_send_tokens == old(g.ev_send_tokens) + 2 && g.ev_sent_tokens.typ == tFAIL
 //@   modifies l.start, g.ev_send_tokens, g.ev_sent_tokens, g.lx_fin, g.lx_err, g.bk
 //
+// rune classes (C20: the set of white space is the documented one)
+//@ group C20,C06
+//@ func isSpace
+//@   ensures [C20] documented_white_space_set: result == is_space(r)
+//@   modifies nothing
+//@ func isEol
+//@   ensures [C20] a_line_ends_at_cr_or_lf: result == is_eol(r)
+//@   modifies nothing
+//
 // helpers
+//@ group C06,C07,C08,C11,C20
 //@ slot runePred (r rune) bool
+//@   ensures self == fn("isSpace") ==> result == is_space(r)
 //@   modifies nothing
 //@ func (*lexer).accept
 //@   ensures kept: l.lpUpd == old(l.lpUpd) && l.posShift + l.start == old(l.posShift + l.start) && g.bk <= 1
@@ -112,7 +123,11 @@ package bcl
 //@   callslot pred runePred
 //@   requires pred != nil
 //@   ensures kept: l.lpUpd == old(l.lpUpd) && l.posShift + l.start == old(l.posShift + l.start) && g.bk == 1
+//@   ensures [C20] exactly_the_run_of_white_space_is_consumed: pred == fn("isSpace") ==> l.posShift + l.pos == skipSpaces(g.ev_src_inputs, old(l.posShift + l.pos))
+//@   ensures no_token: g.ev_send_tokens == old(g.ev_send_tokens)
 //@   loop 1 invariant invs(l) && l.lpUpd == old(l.lpUpd) && l.posShift + l.start == old(l.posShift + l.start)
+//@   loop 1 invariant [C20] pred == fn("isSpace") ==> skipSpaces(g.ev_src_inputs, l.posShift + l.pos) == skipSpaces(g.ev_src_inputs, old(l.posShift + l.pos))
+//@   use utf8_size
 //@   modifies l.input, l.start, l.pos, l.posShift, l.width, lineCalc.lfs, g.ev_bytes_inputs, g.ev_closed_inputs, g.ev_val_inputs, g.bk
 //
 // the token tables hold only proper token types (never a finalizer or tERR)
@@ -124,7 +139,7 @@ package bcl
 //@   ensures true
 //
 // state functions: each returns nil exactly when it has sent a finalizer.
-//@ group C06,C07,C08,C11
+//@ group C06,C07,C08,C11,C20
 //@ slot stateFn (l *lexer)
 //@   requires [C11] running: !g.lx_fin && !g.lx_err
 //@   requires number_state_gives_back_first: self == fn("lexNumber") ==> g.bk == 0
@@ -134,15 +149,28 @@ package bcl
 //@   ensures [C11] tokens_only_added: g.ev_send_tokens >= old(g.ev_send_tokens)
 //@   modifies l.input, l.start, l.pos, l.posShift, l.width, lineCalc.lfs, g.ev_bytes_inputs, g.ev_closed_inputs, g.ev_val_inputs, g.bk, g.ev_send_tokens, g.ev_sent_tokens, g.lx_fin, g.lx_err
 //
+//@ func lexSpace
+//@   implements stateFn
+//@   ensures [C20] white_space_produces_no_token: g.ev_send_tokens == old(g.ev_send_tokens) && result == fn("lexStart")
+//@   ensures [C20] exactly_the_run_of_white_space_is_skipped: l.start == l.pos && l.posShift + l.pos == skipSpaces(g.ev_src_inputs, old(l.posShift + l.pos))
 //@ func lexLineComment
 //@   implements stateFn
+//@   ensures [C20] a_comment_produces_no_token: g.ev_send_tokens == old(g.ev_send_tokens) && result == fn("lexStart")
+//@   ensures [C20] a_comment_ends_at_the_next_cr_or_lf_and_nowhere_else: l.start == l.pos && l.posShift + l.pos == commentEnd(g.ev_src_inputs, old(l.posShift + l.pos))
 //@   loop 1 invariant invs(l) && !g.lx_fin && !g.lx_err && g.ev_send_tokens == old(g.ev_send_tokens)
+//@   loop 1 invariant [C20] commentEnd(g.ev_src_inputs, l.posShift + l.pos) == commentEnd(g.ev_src_inputs, old(l.posShift + l.pos))
+//@   use utf8_size
 //@ func lexKeywordOrIdent
 //@   implements stateFn
 //@   loop 1 invariant invs(l) && !g.lx_fin && !g.lx_err && g.ev_send_tokens == old(g.ev_send_tokens)
 //@ func lexQuote
 //@   implements stateFn
-//@   loop 1 invariant invs(l) && !g.lx_fin && !g.lx_err && g.ev_send_tokens == old(g.ev_send_tokens)
+//@   ensures [C20] a_string_token_spans_exactly_the_literal: (g.ev_send_tokens == old(g.ev_send_tokens) + 1 && g.ev_sent_tokens.typ == tSTR) ==> g.ev_sent_tokens.pos == quoteEnd(g.ev_src_inputs, old(l.posShift + l.pos)) && result == fn("lexStart")
+//@   ensures [C20] an_unterminated_string_is_an_error: quoteEnd(g.ev_src_inputs, old(l.posShift + l.pos)) < 0 ==> g.lx_fin
+//@   ensures [C20] the_literal_starts_at_its_opening_quote: l.posShift + l.start == old(l.posShift + l.start) || g.lx_fin || (g.ev_send_tokens == old(g.ev_send_tokens) + 1 && l.start == l.pos)
+//@   loop 1 invariant invs(l) && !g.lx_fin && !g.lx_err && g.ev_send_tokens == old(g.ev_send_tokens) && l.posShift + l.start == old(l.posShift + l.start)
+//@   loop 1 invariant [C20] quoteEnd(g.ev_src_inputs, l.posShift + l.pos) == quoteEnd(g.ev_src_inputs, old(l.posShift + l.pos))
+//@   use utf8_size, utf8_ascii
 //
 // the lexer goroutine: the token channel is closed exactly once, after a finalizer.
 //@ func (*lexer).run
